@@ -64,6 +64,11 @@ CHECKS["C10"] = dict(
     text="Exhaustive over all histories of <= 3 (quick) / 4 (thorough) operations of the design model under five casts, random 12-20 step histories beyond (reader objects reused and fresh, 14 documents of six formats incl. 4-language SAMI, edits add_style / caption time / node text / caption style / retime). Every set returned by a read must equal the dump of the same term in a fresh interpreter; every edit must change only its own set.",
     design="4 C10")
 
+CHECKS["C11"] = dict(
+    technique="TLA+ spec MarkupWriter.tla: TLC checks the writers' span-reconstruction design models (single open_span flag) against the span requirement on every balanced flat node stream (MC_Markup) and judges the token streams that independent parsers extract from real DFXP / SAMI / WebVTT output and the node lists pycaption's readers return (Trace_Markup)",
+    text="Exhaustive over all balanced flat node streams of length <= 5 (quick) / 7 (thorough) through seven routes (DFXP, SAMI, WebVTT, legacy and single-position DFXP, DFXP->SAMI, SAMI->DFXP); random streams of 5-30 nodes beyond; plus balance of every caption the six readers return on the corpus. Per visible character the (italic, bold, underline) flags and the nesting of the emitted tags are computed and compared by TLC.",
+    design="4 C11")
+
 NOT_YET = {}
 
 
